@@ -402,6 +402,21 @@ fn case_calls1<T: Elem>(case: u64, args: &Args, ev: &mut Ev) {
                 }
             }
         }
+        // a big batch: every element must reach the strategy exactly once
+        if case % 8 == 2 {
+            let size = *rng.pick(&[1025usize, 4097, 5003]);
+            let vals: Vec<T> = (0..size).map(|i| T::of(i as f64 * 0.25)).collect();
+            for (kind, shape) in [(QKind::S1, vec![size]), (QKind::Dyn, vec![size])] {
+                let qa = Query::from_vec(vals.clone(), &shape, kind);
+                h.reset_calls();
+                if let Outcome::Ok(_) = interp.many(&qa) {
+                    ev.add("big_batches", 1);
+                    if !check_calls(ev, case, &format!("interp_array({}) big batch", qa.name()), &h.take_calls(), &vals, None, &lane_shape, &replay) {
+                        return;
+                    }
+                }
+            }
+        }
         // batches with repeated query values: the strategy must be called for every element
         for (kind, shape) in [(QKind::S1, vec![6usize]), (QKind::Dyn, vec![6]), (QKind::S2, vec![2, 3])] {
             let a = T::of(0.5);
